@@ -30,10 +30,14 @@ Record case := {
   k_before : obs;  k_acq_before : list (Z * Z * Z);     (* (listing position, acquisition_index, circuit-level index) *)
   k_draw : option idraw;                (* None: plot_circuit raised *)
   k_error : Z;                          (* 0 no exception, 1 ValueError, 2 any other exception *)
+  k_dur_first_after : Z;                (* circuit.duration read right after the drawing, before the circuit is listed again *)
+  k_held_after : list (Z * Z);          (* (start, end) of the operation objects the drawing listed, read at that same moment *)
   k_after : obs;   k_acq_after : list (Z * Z * Z);
   k_ref : list oentry }.                (* a twin built afterwards from the same program, listed under the drawing's durations *)
 
 Definition order_list (c : case) : list Z := match k_order c with None => [] | Some o => o end.
+
+Definition pair_eqb (a b : Z * Z) : bool := (fst a =? fst b) && (snd a =? snd b).
 
 (* ------------------------------------------------------------------ the tie *)
 Definition model_nodes (c : case) : list node :=
@@ -67,6 +71,8 @@ Definition model_history (c : case) : obs * option drawing * obs :=
 Definition agree (c : case) : bool :=
   let '(o1, d, o2) := model_history c in
   obs_eqb o1 (k_before c) && obs_eqb o2 (k_after c)
+  && (k_dur_first_after c =? o_duration o2)
+  && (match k_held_after c with [] => true | h => list_eqb pair_eqb h (map (fun o => (oe_s o, oe_e o)) (o_ops o2)) end)
   && list_eqb Z.eqb (channel_ids (model_nodes c)) (k_occupied c)
   && draw_agree (drawing_env src_flags (k_compact c) (k_env c)) d (k_draw c)
   && (let denv := drawing_env src_flags (k_compact c) (k_env c) in
@@ -155,6 +161,11 @@ Definition triple_eqb (a b : Z * Z * Z) : bool :=
   let '(a1, a2, a3) := a in let '(b1, b2, b3) := b in (a1 =? b1) && (a2 =? b2) && (a3 =? b3).
 Definition unchanged (c : case) : bool :=
   list_eqb oentry_eqb (o_ops (k_before c)) (o_ops (k_after c))
+  && (k_dur_first_after c =? o_duration (k_before c))
+  && (match k_held_after c with
+      | [] => true                                   (* nothing was listed by the drawing (it raised first) *)
+      | h => list_eqb pair_eqb h (map (fun o => (oe_s o, oe_e o)) (o_ops (k_before c)))
+      end)
   && (o_duration (k_before c) =? o_duration (k_after c))
   && list_eqb ocomp_eqb (o_comps (k_before c)) (o_comps (k_after c))
   && list_eqb triple_eqb (k_acq_before c) (k_acq_after c).
